@@ -203,11 +203,16 @@ def compare_step(ctx, cfg, m, opname, up, dn, ov_old, w_old, e_shift, x, pd_new,
         fin = np.all(np.isfinite(r["up"])) and np.all(np.isfinite(r["dn"])) and np.isfinite(abs(r["ov_new"]))
         tol = 1e-9
         if fin:
-            # after an injected huge field the new walker matrix is extremely ill conditioned and its
-            # determinants carry cond x eps round-off in code and model alike: the tolerance follows
-            # the conditioning, and beyond cond 1e5 the walker is not refined (counted)
+            # after an injected huge field the new walker matrix is extremely ill conditioned and/or its
+            # overlap with the trial is a tiny remainder of large cancelling terms; determinants then carry
+            # (conditioning x eps) round-off in code and model alike: the tolerance follows the larger of
+            # the matrix condition number and the cancellation factor |state| |psi| / |overlap|, and beyond
+            # 1e5 the walker is not refined (counted)
             with np.errstate(all="ignore"):
                 kappa = float(np.linalg.cond(r["up"])) * float(np.linalg.cond(r["dn"]))
+                st = m.state(r["up"], r["dn"])
+                canc = float(np.linalg.norm(st) * np.linalg.norm(m.psi) / abs(r["ov_new"])) if abs(r["ov_new"]) > 0 else float("inf")
+            kappa = max(kappa, canc)
             if not np.isfinite(kappa) or kappa > 1e5:
                 stats["dropped_ill_conditioned"] = stats.get("dropped_ill_conditioned", 0) + 1
                 continue
